@@ -1,10 +1,20 @@
 ----------------------------- MODULE MC_Quorum -----------------------------
-EXTENDS Quorum, TLC, Json, Integers
+EXTENDS Quorum, TLC, Json, Integers, Sequences
 CONSTANT MaxN
 ASSUME AllGood == \A n \in 1..MaxN : Good(n) /\ Bounded(n)
 ASSUME Unique == \A n \in 1..MaxN : \A f \in 0..n : (5 * f + 1 <= n /\ n < 5 * f + 6) => f = FaultyOf(n)
 \* T3 case table: n |-> (f, q, s) as computed by the specification
 ASSUME Table == \A n \in 1..MaxN : PrintT(<<"CASE", ToJson([n |-> n, f |-> FaultyOf(n), q |-> QuorumOf(n), s |-> SubQuorumOf(n)])>>)
+(* Committees (schedule.rs:26-75): a committee is acceptable iff the total weight of ALL its members - leader-eligible or not -   *)
+(* is representable; then n is that total and the thresholds are those of n. Weights are in units of Cap-ths of the largest         *)
+(* representable weight (the replay scales a unit to floor((2^64-1)/Cap)), so "representable" is `Sum <= Cap`.                    *)
+Cap == 6
+RECURSIVE SumSeq(_)
+SumSeq(w) == IF w = <<>> THEN 0 ELSE Head(w) + SumSeq(Tail(w))
+Committees == UNION {[1..k -> [w : 1..Cap, leader : BOOLEAN]] : k \in 1..3}
+Total(c) == SumSeq([i \in 1..Len(c) |-> c[i].w])
+ASSUME Committee == \A c \in {x \in Committees : \E i \in 1..Len(x) : x[i].leader} :
+    PrintT(<<"CASE", ToJson([kind |-> "committee", members |-> c, cap |-> Cap, ok |-> Total(c) <= Cap, units |-> Total(c)])>>)
 VARIABLE x
 Init == x = 0
 Next == UNCHANGED x
